@@ -55,7 +55,7 @@ def table : List Entry := [
   ⟨"Client", "done", .initBeforeFork []⟩,
   ⟨"Client", "ready", .initBeforeFork []⟩,
   ⟨"Client", "isClosed", .atomicOnly⟩,
-  ⟨"Client", "version", .atomicOnly⟩,                        -- negotiate() writes it while both loops read it
+  ⟨"Client", "version", .guardedBy "versionMu" ["NewClient"]⟩,  -- negotiate() writes it while both loops read it (ver/setVer)
   -- driver.LLRPDevice (internal/driver/device.go)
   ⟨"LLRPDevice", "address", .guardedBy "deviceMu" []⟩,
   ⟨"LLRPDevice", "readerStart", .guardedBy "deviceMu" []⟩,
@@ -99,7 +99,7 @@ of known_findings.json (the check prints it as KNOWN-FINDING on every run), othe
   `debouncedDiscover` that writes only after observing `nil` under the lock, i.e. after this goroutine's unlock.
   The ordering depends on the value read, which no lock discipline expresses. -/
 def exceptions : List RSite := [
-  ⟨"Driver", "debounceTimer", "Driver.debouncedDiscover$1", "driver.go:724"⟩
+  ⟨"Driver", "debounceTimer", "Driver.debouncedDiscover$1", "driver.go:757"⟩
 ]
 
 def siteOf (a : Access) : RSite := ⟨a.struct, a.field, a.func, a.pos⟩
